@@ -7,6 +7,7 @@ import (
 	"fmt"
 	"os"
 	"runtime"
+	"strconv"
 	"sync"
 
 	"github.com/foxglove/mcap/go/mcap"
@@ -24,7 +25,7 @@ type c13 struct{ base }
 func init() {
 	runner.Register(&c13{base{
 		id: "C13", level: "exploration",
-		rule: "seeded search over workloads (metadata / channel maps of up to 40 keys, many channels) x configurations. (i) map order: the workload is run R times (8 quick, 32 thorough) in one process, each time building every map in a different insertion order; all outputs must be byte-identical (Go's map iteration order is not seedable, so this clause is decided by repetition). (ii) CPU count: the run is repeated under GOMAXPROCS 1, 2, 4, 16; outputs must equal the GOMAXPROCS=1 output. (iii) instance interference under an owned schedule: 2..8 tasks (writers over their own workload/config, lexers and iterators over prepared images) run as goroutines that park before every API call; the simulator releases exactly one at a time following a schedule drawn from the seed; every task's result must equal its solo run. distinct by (clause, config class, op-shape class, task mix, schedule prefix hash)",
+		rule: "seeded search over workloads (metadata / channel maps of up to 40 keys, many channels) x configurations. (i) map order: the workload is run R times (8 quick, 32 thorough) in one process, each time building every map in a different insertion order; all outputs must be byte-identical (Go's map iteration order is not seedable, so this clause is decided by repetition). (ii) CPU count: the run is repeated under GOMAXPROCS 1, 2, 4, 16; outputs must equal the GOMAXPROCS=1 output. (iii) instance interference under an owned schedule: 2..8 tasks (writers over their own workload/config, lexers and iterators over prepared images) run as goroutines that park before every API call; the simulator releases exactly one at a time following a schedule drawn from the seed; every task's result must equal its solo run. (iii') history: a writer is run, then other instances (other codecs / levels) run to completion, then the same writer again - identical output. (iv) free-running: the tasks run as unsynchronised goroutines on 16 OS threads, several rounds, results compared with solo runs; the same clause runs again in a -race build, where a data-race report ends the batch process (exit 66) and is reported as race_report. distinct by (clause, config class, op-shape class, task mix, schedule prefix hash)",
 		assumptions: []string{
 			"clause (i) is decided by repetition: for maps of <= 8 keys Go randomises only the start slot, so an order dependence survives R runs with probability about 8^-(R-1) per map; maps of 9..40 keys are always included",
 			"clause (iii) interleaves at API-call granularity; it exposes state shared between instances, not data races inside one call (the -race free-running clause is separate, thorough tier)",
@@ -51,7 +52,7 @@ type c13Extra struct {
 
 func (p *c13) Draw(t *rapid.T, tier string) *runner.Scenario {
 	lim := gen.Limits{MaxOps: 30, MaxPayload: 600, MaxTotal: 8000}
-	clauses := []string{"map_order", "map_order", "gomaxprocs", "interference", "interference", "free_running"}
+	clauses := []string{"map_order", "map_order", "gomaxprocs", "interference", "interference", "free_running", "history", "history"}
 	if only := os.Getenv("VERIF_C13_CLAUSE"); only != "" {
 		clauses = []string{only}
 	}
@@ -76,6 +77,9 @@ func (p *c13) Draw(t *rapid.T, tier string) *runner.Scenario {
 		}
 		for i := 0; i < n; i++ {
 			tk := c13Task{Kind: pick(t, "task_kind", "writer", "writer", "lexer", "scan", "indexed")}
+			if ex.Clause == "history" && i == 0 {
+				tk.Kind = "writer" // the instance whose output must not depend on what ran before it
+			}
 			l := small
 			if tk.Kind == "indexed" {
 				l.ForceChunked, l.ForceIndexed, l.NoCustom = true, true, true
@@ -355,7 +359,41 @@ func (p *c13) Check(sc *runner.Scenario, st *runner.Stats, pin string) *runner.V
 	if err := json.Unmarshal(sc.Extra, &ex); err != nil {
 		return viol(sc, "harness", "bad extra: %v", err)
 	}
+	// start every scenario from the same process state as a fresh replay process:
+	// two collections empty any sync.Pool left filled by earlier scenarios
+	runtime.GC()
+	runtime.GC()
 	switch ex.Clause {
+	case "history":
+		// the same writer run twice in one process, with other instances (other codecs,
+		// levels, sizes) run to completion in between: byte-identical output
+		run := func(tk c13Task, img []byte) []byte {
+			s := makeStepper(tk, img)
+			for s.step() {
+			}
+			st.Evaluations++
+			return s.result()
+		}
+		first := run(ex.Tasks[0], nil)
+		for i, tk := range ex.Tasks[1:] {
+			var img []byte
+			if tk.Kind != "writer" {
+				var res *drive.WriteResult
+				img, res = drive.Image(tk.Cfg, tk.WL)
+				if prob := res.FirstProblem(); prob != "" {
+					return viol(sc, "unexpected_error", "task %d: fault-free write failed: %s", i+1, prob)
+				}
+			}
+			run(tk, img)
+		}
+		second := run(ex.Tasks[0], nil)
+		st.Event(uint64(len(ex.Tasks)))
+		if !bytes.Equal(first, second) && pinned(pin, "history") {
+			return viol(sc, "history", "writer (%s) produced different output the second time, after %d other instances had run in the process", gen.CfgClass(ex.Tasks[0].Cfg), len(ex.Tasks)-1)
+		}
+		st.DistinctCase("history|" + gen.CfgClass(ex.Tasks[0].Cfg) + "|" + fmt.Sprint(len(ex.Tasks)))
+		st.Inc("fault.schedule.history_runs")
+		return nil
 	case "map_order":
 		var first []byte
 		maxKeys := 0
@@ -488,8 +526,11 @@ func (p *c13) freeRunning(sc *runner.Scenario, ex *c13Extra, st *runner.Stats, p
 	if sc.Tier == "thorough" {
 		attempts = 20
 	}
+	if n, err := strconv.Atoi(os.Getenv("VERIF_C13_ATTEMPTS")); err == nil && n > 0 {
+		attempts = n
+	}
 	if pin != "" {
-		attempts = 50 // replay / shrinking: the schedule is not owned, try harder
+		attempts = 200 // replay / shrinking: the schedule is not owned, try harder
 	}
 	st.InFlight(sc)
 	for a := 0; a < attempts; a++ {
